@@ -121,7 +121,7 @@ def non_negative(ctx: Ctx):
     # where the ignored count itself is clamped, the clamp has to be the LAST step: `np.maximum(Nt - Np, 0) - Nn` floors an
     # intermediate result and still goes one rounding error below zero once Nn is subtracted
     inner_only = False
-    if clamped(ign.node) and not clamped(m.node, ni):
+    if clamped(ign.node) and not clamped(m.node, ni) and not clamped(SUMMARIZER.summarize(m.node), ni):
         body = SUMMARIZER.summarize(ign.node)
         leaves = [x for x in ast.walk(body) if isinstance(x, (ast.BinOp, ast.Call)) and not isinstance(getattr(x, "func", None), ast.Name)]
         elems = []
@@ -134,7 +134,12 @@ def non_negative(ctx: Ctx):
         collect(body)
         is_clamp = lambda x: isinstance(x, ast.Call) and u(x.func) in ("np.maximum", "np.clip", "np.fmax")
         inner_only = any(isinstance(x, ast.BinOp) and isinstance(x.op, ast.Sub) and any(is_clamp(y) for y in ast.walk(x)) for x in elems)
-    ok = ((not is_difference) or clamped(ign.node) or clamped(m.node, ni)) and not inner_only
+    # (the summary has local helper functions inlined and their literal flags decided: `term(0, Ni, clip=True)`)
+    try:
+        m_sum = SUMMARIZER.summarize(m.node)
+    except Exception:
+        m_sum = m.node
+    ok = ((not is_difference) or clamped(ign.node) or clamped(m.node, ni) or clamped(m_sum, ni)) and not inner_only
     ctx.ob("variance.non-negative", where, "the ignored count is clamped at zero" if ok else ("a subtraction FOLLOWS the clamp: the floor is on an intermediate result" if inner_only else "Ni = Nt - Np - Nn enters the variance as computed"), "a difference of float sums is clamped at zero before it weights a square", ok,
            "an all-categories subtotal of a weighted table gets variance -2e-16: standard deviation, standard error and margin of error are NaN although the proportion (1) and the base are defined")
 
